@@ -4,6 +4,7 @@ import (
 	"fmt"
 	"go/constant"
 	"go/types"
+	"regexp"
 	"sort"
 	"strconv"
 	"strings"
@@ -43,7 +44,8 @@ type leafTx struct {
 
 func runC08(c *eng.Ctx, thorough bool) {
 	c08ListWindow(c)
-	cacheLockOwner(c, "C08.5")
+	// "lock table and LRU of the same cache" (cacheLockOwner, props/c13.go) is subsumed for C08.5 by
+	// cacheLruUnderKeyLock (props/c08g2.go), which also compares the key and requires the lock to be held
 	// ---------- C08.1 family discovery
 	c.Clause("R8", "C08.1")
 	txIface := c.P.NamedType("physical.Transaction")
@@ -286,8 +288,14 @@ func runC08(c *eng.Ctx, thorough bool) {
 			// the inner call: an invoke (or static call) of a method with the same name, or a helper taking the inner txn
 			var inner []eng.Edge
 			var innerCalls []ssa.Instruction
-			for _, cl := range eng.Calls(f, `\.`+m+`$|putWithBackend$|deleteWithBackend$`) {
-				if cl.Common().StaticCallee() == f {
+			innerRe := regexp.MustCompile(`\.` + m + `$|putWithBackend$|deleteWithBackend$`)
+			// the call itself, a bound method value of it, or a closure / same-package helper every
+			// return of which lies behind it and whose error result is the call's verdict
+			for _, st := range nfMust(f, nil, func(nc nfCall, _ *nfFrame) bool {
+				return innerRe.MatchString(nc.Name) && nc.In.Common().StaticCallee() != f
+			}, 1) {
+				cl, isCall := st.At.(ssa.CallInstruction)
+				if !isCall || !st.Fwd {
 					continue
 				}
 				innerCalls = append(innerCalls, cl)
@@ -657,7 +665,8 @@ func runC08(c *eng.Ctx, thorough bool) {
 		if eng.FuncName(eng.TopFunc(s.Fn)) == "raft.(*FSM).ApplyBatch" {
 			continue // replicated bound, C09.3
 		}
-		checkBound(c, s.Fn, s.Call, s.Call.Common().Args[1], "argument of clearOldEntries")
+		args := nfCallOf(s.Call).Args // through a bound method value the receiver is bound, not passed
+		checkBound(c, s.Fn, s.Call, args[len(args)-1], "argument of clearOldEntries")
 	}
 	c.Floor(nil, "clearOldEntries call sites", len(trimSites), 3)
 	if f := c.Fn("raft.(*RaftBackend).applyLog"); f != nil {
@@ -780,7 +789,15 @@ func runC08(c *eng.Ctx, thorough bool) {
 			}
 		}
 		if c.Floor(f, "shared cache invalidation", len(inval), 1) {
-			c.Cut(f, "invalidate shared cache entries", inval, eng.GCallOK(f, `<physical\.Transaction>\.Commit$`), nil)
+			okCommit := eng.Guard{Desc: "success edge of the wrapped transaction's Commit"}
+			for _, st := range nfMust(f, nil, func(nc nfCall, _ *nfFrame) bool {
+				return nc.Name == "<physical.Transaction>.Commit"
+			}, 1) {
+				if cl, isCall := st.At.(ssa.CallInstruction); isCall && st.Fwd {
+					okCommit.Edges = append(okCommit.Edges, eng.CallOKEdges(cl)...)
+				}
+			}
+			c.Cut(f, "invalidate shared cache entries", inval, okCommit, nil)
 			succ := eng.SuccessReturns(f, 0)
 			var own []ssa.Instruction
 			for _, r := range succ {
